@@ -43,6 +43,10 @@ extern "C" void harness() {
 #ifdef VP_START_FULL
   for (int i = 0; i < N; i++) for (int j = i + 1; j < N; j++) c.add_edge_without_blockers(VH(i), VH(j)); for (int s = 1; s < NS; s++) present[s] = true;
 #endif
+#ifdef VP_START_GRAPH   /* arbitrary start state: the flag complex of a solver-chosen graph (built edge by edge, state construction is not under test) */
+  for (int i = 0; i < N; i++) for (int j = i + 1; j < N; j++) if (vp_fork_int(vp_int("edge", 0, 1))) { int m = 1 << i | 1 << j; c.add_edge_without_blockers(VH(i), VH(j)); present[m] = true; }
+  for (int sz = 3; sz <= N; sz++) for (int s = 1; s < NS; s++) if (pcnt(s) == sz && all_proper_faces(present, s)) present[s] = true;   // flag complex: every clique
+#endif
   observe(c);
   for (int step = 0; step < VP_K; step++) {
     int kind = vp_fork_int(vp_int("kind", 0, 4)), m = vp_fork_int(vp_int("mask", 1, NS - 1));
